@@ -25,7 +25,7 @@ KINDS = ["raises", "unknown", "convert_int", "convert_float", "too_few", "too_ma
 
 def shards(tier, seed):
     m = 16 if tier == "quick" else 48
-    n = 130 if tier == "quick" else 2000
+    n = 130 if tier == "quick" else 800
     return [{"part": k, "n": n} for k in range(m)]
 
 
